@@ -740,6 +740,33 @@ fn typing(rep: &Report) {
             }
         }
     }
+    // every subscript digit (one digit: `x₁₀` is desugared digit by digit to `x_1_0`, which the statement does not
+    // settle) in a key, in a flag and in a looked-up name: the same definition as
+    // with the underscore spelling (normal form, step list, parameters as given)
+    const SUBS: [char; 10] = ['₀', '₁', '₂', '₃', '₄', '₅', '₆', '₇', '₈', '₉'];
+    for idx in (0..10usize).map(|d| vec![d]) {
+        rep.eval(1);
+        let sub: String = idx.iter().map(|&d| SUBS[d]).collect();
+        let und: String = format!("_{}", idx.iter().map(|d| d.to_string()).collect::<String>());
+        let a = format!("addone x{sub}=42 v{sub} y=$z{sub}(3) | addone inv k{sub}=1");
+        let b = format!("addone x{und}=42 v{und} y=$z{und}(3) | addone inv k{und}=1");
+        let look = |text: &str| -> Result<(String, String, Vec<String>, Vec<String>), String> {
+            catch(|| {
+                let mut ctx = Minimal::default();
+                let op = ctx.op(text).map_err(|e| e.to_string())?;
+                let steps = ctx.steps(op).map_err(|e| e.to_string())?.clone();
+                let given: Vec<String> = (0..steps.len()).map(|i| ctx.params(op, i).map(|p| format!("{:?}", p.given)).unwrap_or_else(|e| e.to_string())).collect();
+                Ok((text.normalize(), text.normalize().normalize(), steps, given))
+            })
+            .unwrap_or_else(|p| Err(format!("PANIC {p}")))
+        };
+        let (ra, rb) = (look(&a), look(&b));
+        seen(hash_of(&format!("{ra:?}")));
+        let idem = matches!(&ra, Ok((n1, n2, _, _)) if n1 == n2);
+        if ra != rb || ra.is_err() || !idem {
+            rep.violation("subscript-digit spelling of an index is significant", json!({"kind": "subscript", "subscript_spelling": a, "underscore_spelling": b, "subscript_gives": format!("{ra:?}"), "underscore_gives": format!("{rb:?}")}));
+        }
+    }
     let o = outcomes.into_inner().unwrap();
     rep.nontrivial_bulk(&o);
     rep.outcomes_bulk(&o);
